@@ -100,11 +100,31 @@ Section Paging.
       else Ok (zlen (fst (apply true keep lim rows)))
     else Ok (match lim with Some k => Z.min (zlen rows) k | None => zlen rows end).
 
-  (* DirectQueryDriver.any -- it never sees the result spec, hence no limit argument *)
-  Definition any (pp : bool) (keep : A -> bool) (rows : list A) (exec exact : bool) : res bool :=
+  (* DirectQueryDriver.any / Query.any on the un-sliced query: never sees the result spec, hence no limit
+     argument.  This was also what result objects answered before repair 84ff715 (the pre-fix variant). *)
+  Definition any_driver (pp : bool) (keep : A -> bool) (rows : list A) (exec exact : bool) : res bool :=
     if negb exec then (if exact then ErrInvalidQuery else Ok true)
     else if pp && exact then Ok (existsb keep rows)
     else Ok (negb (is_nil rows)).
+
+  (* QueryResultsBase.any (84ff715): results sliced down to no rows have none, whatever the flags *)
+  Definition any (pp : bool) (keep : A -> bool) (lim : option Z) (rows : list A) (exec exact : bool) : res bool :=
+    match lim with
+    | Some 0 => Ok false
+    | _ => any_driver pp keep rows exec exact
+    end.
+
+  (* QueryResultsBase.limit (dc45863): a negative limit is refused when the results object is sliced, so
+     iteration / count / any of such an object are never reached.  `iterate` and `count` with a raw
+     negative limit remain the pre-fix behaviour of the driver. *)
+  Definition limit_accepted (lim : option Z) : bool := match lim with Some k => 0 <=? k | None => true end.
+
+  Definition results_iterate (c : cfg) pp keep lim rows : res (list A) :=
+    if limit_accepted lim then Ok (iterate c pp keep lim rows) else ErrInvalidQuery.
+  Definition results_count pp keep lim rows (exact discard : bool) : res Z :=
+    if limit_accepted lim then count pp keep lim rows exact discard else ErrInvalidQuery.
+  Definition results_any pp keep lim rows (exec exact : bool) : res bool :=
+    if limit_accepted lim then any pp keep lim rows exec exact else ErrInvalidQuery.
 
   (* Butler.query_data_ids / query_datasets / query_dimension_records: negative limit = "warn if more" *)
   Definition butler_query (c : cfg) (pp : bool) (keep : A -> bool) (limit : option Z) (explain : bool) (rows : list A)
